@@ -121,14 +121,21 @@ def build(ctx):
             ('R17', ('call', r'pool_\.scheduleBulkPlaced\s*(?=\()'), 'G_bulk_enqueue(toEnqueue);', 'opt'),
             ('R3', r'std::min\(chunkSize,\s*static_cast<size_t>\(room\)\)', '(chunkSize < ((size_t)room) ? chunkSize : ((size_t)room))', 1),
             ('R3', r'std::min\(count - i,\s*enqueueLimit\)', '((count - i) < enqueueLimit ? (count - i) : enqueueLimit)', 1),
-            ('LC', r'while\s*\(i < count\)\s*\{', 'while (i < count) __CPROVER_assigns(i, g_invoked, g_bad_order, g_last_mo, g_credit, g_uncredited_handover) __CPROVER_loop_invariant(i <= count && !g_bad_order && chunkSize >= 1 && g_credit == 0 && !g_uncredited_handover && (g_canceled ==> g_invoked == 0) && g_invoked >= 0 && g_invoked <= (int)i) __CPROVER_decreases(count - i) {', 1)]
-    ctx.emit('TSB_scheduleBulkImpl.body.inc', r.function(TI, r'void\s+scheduleBulkImpl\s*\(\s*size_t\s+count\s*,\s*Generator&&\s+gen\s*,\s*moodycamel::ProducerToken\*\s+token\s*,[^)]*\)'), subs=bulk + opt(COMMON), must_fire=['R13', 'LC'], typemap=TM)
-    ctx.emit('TSB_scheduleBulkImplPlaced.body.inc', r.function(TI, r'void\s+scheduleBulkImplPlaced\s*\(\s*size_t\s+count\s*,\s*Generator&&\s+gen\s*,[^)]*\)'), subs=bulk + opt(COMMON), must_fire=['R13', 'LC'], typemap=TM)
+            ('LC', r'while\s*\(i < count\)\s*\{', 'while (i < count) __CPROVER_assigns(i, g_invoked, g_bad_order, g_last_mo, g_credit, g_uncredited_handover, g_canceled, g_fresh) __CPROVER_loop_invariant(i <= count && !g_bad_order && chunkSize >= 1 && g_credit == 0 && !g_uncredited_handover && (g_canceled0 ==> (g_canceled && g_invoked == 0)) && g_invoked >= 0 && g_invoked <= (int)i) __CPROVER_decreases(count - i) {', 1)]
+    # tolerance for restructured loops: any other std::min is rendered generically, integer class constants are read from the class
+    # (R4), `invokeInline` may occur any number of times, and loops without a contract (inner batches) are unwound (UNW) with
+    # unwinding assertions -- a bound that is too small is reported as undecided, never as a violation
+    gen_min = ('R3', r'std::min\(((?:[^(),]|\([^()]*\))+),\s*((?:[^(),]|\([^()]*\))+)\)', r'MIN_size(\1, \2)', 'opt')
+    bulk = [b if 'invokeInline' not in str(b[1]) else (b[0], b[1], b[2]) for b in bulk]
+    for nm, sig in (('TSB_scheduleBulkImpl', r'void\s+scheduleBulkImpl\s*\(\s*size_t\s+count\s*,\s*Generator&&\s+gen\s*,\s*moodycamel::ProducerToken\*\s+token\s*,[^)]*\)'),
+                    ('TSB_scheduleBulkImplPlaced', r'void\s+scheduleBulkImplPlaced\s*\(\s*size_t\s+count\s*,\s*Generator&&\s+gen\s*,[^)]*\)')):
+        pc = r.function(TI, sig)
+        ctx.emit(nm + '.body.inc', pc, subs=bulk + [gen_min] + X.const_subs(r, TI, pc) + opt(COMMON), must_fire=['R13', 'LC'], typemap=TM)
     fqb = [b for b in bulk if b[0] != 'LC' and 'invokeInline' not in b[1] and 'shouldInlineBulk' not in b[1] and 'room' not in str(b[1]) and 'curWork' not in str(b[1]) and 'enqueueLimit' not in str(b[1])]
     fqb = [(b[0], b[1], b[2], 'opt') for b in fqb] + [
         ('R3', r'std::min\(count - i,\s*chunkSize\)', '((count - i) < chunkSize ? (count - i) : chunkSize)', 'opt'),
         # any loop shape over i: the credit ledger must be balanced at every iteration boundary
-        ('LC', r'while\s*\(i < count\)\s*\{', 'while (i < count) __CPROVER_assigns(i, g_invoked, g_bad_order, g_last_mo, g_credit, g_uncredited_handover) __CPROVER_loop_invariant(i <= count && !g_bad_order && chunkSize >= 1 && g_credit == 0 && !g_uncredited_handover && g_invoked == 0) __CPROVER_decreases(count - i) {', 1)]
+        ('LC', r'while\s*\(i < count\)\s*\{', 'while (i < count) __CPROVER_assigns(i, g_invoked, g_bad_order, g_last_mo, g_credit, g_uncredited_handover, g_canceled, g_fresh) __CPROVER_loop_invariant(i <= count && !g_bad_order && chunkSize >= 1 && g_credit == 0 && !g_uncredited_handover && g_invoked == 0 && (g_canceled0 ==> g_canceled)) __CPROVER_decreases(count - i) {', 1)]
     ctx.emit('TSB_scheduleBulkImplForceQueue_ledger.body.inc', r.function(TI, r'void\s+scheduleBulkImplForceQueue\s*\(\s*size_t\s+count\s*,\s*Generator&&\s+gen\s*,\s*moodycamel::ProducerToken\*\s+token\s*\)'), subs=fqb + opt(COMMON), must_fire=['LC', 'R17'], typemap=TM)
     ctx.emit('TSB_cancelChildren.body.inc', r.function(TI, r'void\s+cancelChildren\s*\(\s*\)'), must_fire=['R8', 'LC'],
              subs=[('R17', r'std::lock_guard<std::mutex>\s+lk\(mtx_\);', 'G_lock();   /* held to the end of the function */', 1),
@@ -150,8 +157,8 @@ def build(ctx):
              mk('TaskSet::schedule', 'TS_schedule', replace=['PKG_body'], replay=rp),
              mk('ConcurrentTaskSet::schedule', 'CTS_schedule', replace=['PKG_body', 'CTS_schedulePlaced'], replay=rp),
              mk('ConcurrentTaskSet::schedulePlaced', 'CTS_schedulePlaced', replace=['PKG_body'], replay=rp),
-             mk('TaskSetBase::scheduleBulkImpl', 'TSB_scheduleBulkImpl', loop_contracts=True, replay=rp),
-             mk('TaskSetBase::scheduleBulkImplPlaced', 'TSB_scheduleBulkImplPlaced', loop_contracts=True, replay=rp),
+             mk('TaskSetBase::scheduleBulkImpl', 'TSB_scheduleBulkImpl', loop_contracts=True, replay=rp, unwind=10),
+             mk('TaskSetBase::scheduleBulkImplPlaced', 'TSB_scheduleBulkImplPlaced', loop_contracts=True, replay=rp, unwind=10),
              mk('TaskSetBase::scheduleBulkImplForceQueue', 'TSB_scheduleBulkImplForceQueue', loop_contracts=True, replay=rp),
              mk('TaskSetBase::cancelChildren', 'TSB_cancelChildren', loop_contracts=True),
              mk('TaskSetBase::cancel', 'TSB_cancel', replace=['TSB_cancelChildren'], replay=rp),
